@@ -8,8 +8,8 @@ import (
 )
 
 // VH_C08_StartAny: the real start-up path answered by a mirror view with arbitrary
-// numbers and 0-2 headers (or by a committed header: catch-up), then 2 events of any kind
-// of which at most one brings new vote numbers (quick) / 3 events (thorough).
+// numbers and 0-2 headers (or by a committed header: catch-up), then 1 event of any kind
+// (thorough: also the general view update) + 1 (quick) / 2 (thorough) events without new vote numbers.
 func VH_C08_StartAny() {
 	vhOpts()
 	e := vhNewSM(true)
@@ -21,12 +21,7 @@ func VH_C08_StartAny() {
 	e.check(chkC08)
 	e.observeState("after-start")
 	verifrt.Reach("C08-start:started")
-	if verifrt.Thorough() {
-		e.run(chkC08, vhEvents(), 3)
-	} else {
-		e.viewsLeft = 1
-		e.run(chkC08, vhEvents(), 2)
-	}
+	e.runStartAny(chkC08)
 	if e.seen&vhSeenReplaying != 0 {
 		verifrt.Reach("C08-start:replaying-a-committed-header")
 	}
@@ -42,9 +37,9 @@ func VH_C08_StartAny() {
 	e.finish()
 }
 
-// VH_C08_Seq: height 1 round 0 entered with no votes yet (0/1 header), then quick: 2 events
-// of any kind + 1 event without new vote numbers; thorough: 4 events of any kind. Later
-// entrances are answered with empty views.
+// VH_C08_Seq: height 1 round 0 entered with no votes yet (0/1 header), then 2 events of any
+// kind + 1 (quick) / 2 (thorough) events without new vote numbers. Later entrances are
+// answered with empty views.
 func VH_C08_Seq() {
 	vhOpts()
 	e := vhNewSM(true)
